@@ -30,6 +30,7 @@ def streams(rng, tier):
     ss.append(G + W.ready(b"PUSH") + W.msg([b"k" * 70000, b"s"]) + W.msg([b"t"]))
     ss.append(G + W.ready(b"DEALER") + W.msg([b"a" * 65536]) + W.msg([b"b" * 300, b""]) + W.ready(b"DEALER") + W.msg([b"c"]))
     ss.append(G + W.ready(b"PUB") + W.msg([b"x" * 65535]) + W.msg([b"y"]) + W.msg([b"z" * 131072, b"w" * 65537]) + W.msg([b"v"]))
+    ss.append(G + W.ready(b"PUSH") + W.msg([b"m" * 1200000]) + W.msg([b"n" * 900000, b"o"]) + W.msg([b"p"]))
     n = 6 if tier == "quick" else 40
     for _ in range(n):
         s = G + W.ready(rng.choice([b"DEALER", b"ROUTER", b"REP"]), rng.choice([None, b"i", b"id" * 20]))
